@@ -120,6 +120,7 @@ type Scenario struct {
 	Msg    string   `json:"msg_hex"`            // message, hex (lengths 0, 1, 31, 32, 33, 64, 96 are cycled)
 	Msg2   string   `json:"msg2_hex,omitempty"` // the other message of wrong_message, related to Msg
 	Calls  []Call   `json:"calls,omitempty"`    // kind "sequence": the call sequence against the process-wide tbls implementation
+	GCalls []GCall  `json:"gcalls,omitempty"`   // kind "fail_sequence": failing calls interleaved with honest calls (failhist_test.go)
 	Shares []string `json:"shares,omitempty"` // explicit shares of ids 1..n (ThresholdSplit output) instead of Coeffs
 	Shape  string   `json:"shape,omitempty"`
 }
@@ -154,6 +155,9 @@ type Out struct {
 	HistCalls  int            `json:"history_calls"`
 	HistBlocks int            `json:"history_blocks"`
 	HistStats  map[string]int `json:"history_stats"`
+	FailBlocks int            `json:"failure_history_sequences"`
+	FailCalls  int            `json:"failure_history_calls"`
+	FailStats  map[string]int `json:"failure_history_stats"`
 	Distinct   int            `json:"distinct_scenarios"`
 	Samples    []Scenario     `json:"samples"`
 }
@@ -250,6 +254,9 @@ func runScenario(t *testing.T, s Scenario) (string, bool) {
 	t.Helper()
 	if s.Kind == "sequence" {
 		return runCalls(s.Calls), false
+	}
+	if s.Kind == "fail_sequence" {
+		return runGCalls(t, s.GCalls, 5), false
 	}
 	secret := undec(s.Secret)
 	var script []*big.Int
@@ -1016,6 +1023,13 @@ func TestGen(t *testing.T) {
 				}
 			}
 		}
+	}
+
+	// ---- G. history independence, part 2: failing calls interleaved with honest calls (failhist_test.go)
+	{
+		b, c, st, vs := failureHistory(t, r, thorough)
+		out.FailBlocks, out.FailCalls, out.FailStats = b, c, st
+		out.Violations = append(out.Violations, vs...)
 	}
 
 	out.Distinct = len(seen)
